@@ -61,6 +61,11 @@ class Monitor:
         self.allowed_root: str | None = None
         self.mut_count = 0
         self.kill_at: int | None = None
+        #: exit at the first Python function entry AFTER the k-th mutating
+        #: operation has executed (userspace-buffered data is lost, as with
+        #: a real kill): the window between open(..., 'w') and the flush
+        self.kill_after: int | None = None
+        self.kinds: list[str] = []
         self.fail_at: int | None = None
         self.fail_errno = errno.ENOSPC
         self.on_event: Callable[[Event], None] | None = None
@@ -143,6 +148,7 @@ class Monitor:
             self.mut_count += 1
             if self.kill_at is not None and ev.idx >= self.kill_at:
                 os._exit(77)
+            self.kinds.append(kind)
         if self.record:
             self.events.append(ev)
         if self.on_event is not None:
@@ -161,6 +167,25 @@ class Monitor:
                 self.failed_injected += 1
                 raise OSError(self.fail_errno, os.strerror(self.fail_errno),
                               ev.raw)
+            if self.kill_after is not None and ev.idx == self.kill_after:
+                self._arm_exit()
+
+    def _arm_exit(self) -> None:
+        mon = sys.monitoring
+        tool = 5
+        try:
+            mon.use_tool_id(tool, 'vf-kill-after')
+        except ValueError:
+            pass
+        state = {'n': 0}
+
+        def cb(code: Any, offset: int) -> None:
+            # the first PY_START is the next function the server calls after
+            # the audited operation has returned
+            if code.co_filename != __file__:
+                os._exit(77)
+        mon.register_callback(tool, mon.events.PY_START, cb)
+        mon.set_events(tool, mon.events.PY_START)
 
     # -- control --------------------------------------------------------------
 
